@@ -10,7 +10,7 @@ from fractions import Fraction
 
 import numpy as np
 
-from .. import contracts, gen, geom
+from .. import aging, contracts, gen, geom
 
 PROPERTY = "C01"
 RULE = ("G-convex: 4-60 points on ellipsoids (round/flat/needle, aspect up to 100), integer lattice polytopes with coplanar "
@@ -32,7 +32,7 @@ REQUIRED_MONITORS = ["ConvexPolyhedron.volume", "ConvexPolyhedron.surface_area",
                      "ConvexPolyhedron.inertia_tensor", "ConvexPolyhedron.get_face_area", "ConvexPolyhedron.face_centroids",
                      "order-independence", "lattice-exact"]
 REQUIRED_CLASSES = ["kind:lattice", "kind:tabulated", "kind:prism", "kind:ellipsoid-flat", "kind:ellipsoid-needle",
-                    "offset:10.0", "offset:0.0"]
+                    "offset:10.0", "offset:0.0", "history:aged-object"]
 
 _cache = {}
 
@@ -198,6 +198,15 @@ def run_case(i, rng, rec, tier, state):
         if "inertia_tensor" in a:
             rec.close("lattice-exact", np.asarray(a["inertia_tensor"], float), np.array([[float(x) for x in r] for r in Iq]),
                       1e-8 * F["V"] * F["L"] ** 2 + 1e-12, "ConvexPolyhedron.inertia_tensor/lattice-exact", lambda: _wit(s))
+    # one case in four goes on with the same object: reads have filled whatever it memoises; now it is resized, moved,
+    # reoriented through the public API and read again - the postconditions judge against the *current* vertices
+    if i % 4 == 1:
+        hist = aging.age(s, rng, reads=False)
+        rec.cls("history:aged-object")
+        if not np.all(np.isfinite(np.asarray(s.vertices, float))):
+            rec.violation("ConvexPolyhedron.vertices", "ConvexPolyhedron/non-finite-vertices-after-history", {"vertices": P, "history": hist})
+        else:
+            _read_all(s, rng, rec)
     F = facts(P)
     bigface = any(len(f) > 3 for f in F["hull"].facets)
     if c["offset_ratio"] > 0 or bigface or c.get("aspect", 1) > 10:
